@@ -456,3 +456,80 @@ Theorem C20_kernel_paretofront_refines_model :
        Ok (RI 0, [VArrF (List.concat data); VArrI (paretofront N orientation data)]).
 Proof. exact @RefinePareto.refine_paretofront. Qed.
 Print Assumptions C20_kernel_paretofront_refines_model.
+
+(* ================================================================== *)
+(* The pareto_front clauses of C20 ITSELF on the REGENERATED program (MiniC translation of src/hydrodiy/stat/c_paretofront.c), over the reals with an explicit *)
+(*    missing value (RN, None = NaN): the model theorems above composed with C20_kernel_paretofront_refines_model (Proofs/KernelPareto.v). *)
+(* ================================================================== *)
+From Coq Require Import String Lia PrimFloat.
+From Hy Require Import Base.Num Base.MiniC Gen.KernelsAst Gen.Consts Base.Num Base.MiniC Gen.KernelsAst Model.Summary.
+From Hy Require Proofs.KernelPareto.
+Import ListNotations.
+Open Scope string_scope.
+Open Scope list_scope.
+Open Scope Z_scope.
+
+(* the translated c_paretofront returns 0, leaves the data unchanged and flags point i with 1 exactly when ANOTHER point is strictly better in every coordinate whose difference is not missing, with 0 exactly when no such point exists; any number of points and columns, any orientation code, NaN anywhere *)
+Theorem C20_kernel_pareto_flag_iff_dominated :
+  forall (o : Z) (ncol : nat) (data : list (list (option R))) (buf : list Z) (n : nat),
+       Forall (fun r : list (option R) => Datatypes.length r = ncol) data ->
+       Datatypes.length buf = Datatypes.length data ->
+       (Nat.max (Datatypes.length data) ncol < n)%nat ->
+       exists flags : list Z,
+         KernelPareto.run_pareto n o ncol data buf =
+         Ok (RI 0, [VArrF (List.concat data); VArrI flags]) /\
+         Datatypes.length flags = Datatypes.length data /\
+         (forall i : nat,
+          (i < Datatypes.length data)%nat ->
+          (nth i flags 0 = 1 <->
+           (exists j : nat,
+              (j < Datatypes.length data)%nat /\
+              j <> i /\ SummaryParetoProofs.dominates o (nth j data []) (nth i data []))) /\
+          (nth i flags 0 = 0 <->
+           ~
+           (exists j : nat,
+              (j < Datatypes.length data)%nat /\
+              j <> i /\ SummaryParetoProofs.dominates o (nth j data []) (nth i data [])))).
+Proof. exact @KernelPareto.kernel_pareto_flag_iff_dominated. Qed.
+Print Assumptions C20_kernel_pareto_flag_iff_dominated.
+
+(* complete data, at least one point and one column: the translated kernel leaves at least one point unflagged *)
+Theorem C20_kernel_pareto_front_nonempty :
+  forall (o : Z) (ncol : nat) (rows : list (list R)) (buf : list Z) (n : nat),
+       rows <> [] ->
+       (1 <= ncol)%nat ->
+       Forall (fun r : list R => Datatypes.length r = ncol) rows ->
+       Datatypes.length buf = Datatypes.length rows ->
+       (Nat.max (Datatypes.length rows) ncol < n)%nat ->
+       exists (flags : list Z) (i : nat),
+         KernelPareto.run_pareto n o ncol (SummaryParetoProofs.complete rows) buf =
+         Ok (RI 0, [VArrF (List.concat (SummaryParetoProofs.complete rows)); VArrI flags]) /\
+         Datatypes.length flags = Datatypes.length rows /\
+         (i < Datatypes.length rows)%nat /\ nth i flags 0 = 0.
+Proof. exact @KernelPareto.kernel_pareto_front_nonempty. Qed.
+Print Assumptions C20_kernel_pareto_front_nonempty.
+
+(* the translated kernel run with orientation -o on the data and with orientation o on the negated data writes the same flags *)
+Theorem C20_kernel_pareto_reverse_is_negation :
+  forall (o : Z) (ncol : nat) (data : list (list (option R))) (buf1 buf2 : list Z) (n : nat),
+       Forall (fun r : list (option R) => Datatypes.length r = ncol) data ->
+       Datatypes.length buf1 = Datatypes.length data ->
+       Datatypes.length buf2 = Datatypes.length data ->
+       (Nat.max (Datatypes.length data) ncol < n)%nat ->
+       exists flags : list Z,
+         KernelPareto.run_pareto n (- o) ncol data buf1 =
+         Ok (RI 0, [VArrF (List.concat data); VArrI flags]) /\
+         KernelPareto.run_pareto n o ncol (SummaryParetoProofs.negate data) buf2 =
+         Ok (RI 0, [VArrF (List.concat (SummaryParetoProofs.negate data)); VArrI flags]).
+Proof. exact @KernelPareto.kernel_pareto_reverse_is_negation. Qed.
+Print Assumptions C20_kernel_pareto_reverse_is_negation.
+
+(* the abbreviation run_pareto used above, unfolded *)
+Theorem C20_kernel_pareto_abbreviation :
+  forall (n : nat) (o : Z) (ncol : nat) (data : list (list (option R))) (buf : list Z),
+       KernelPareto.run_pareto n o ncol data buf =
+       exec_fun RN XRN program (S n) "c_paretofront"
+         [AVI (Z.of_nat (Datatypes.length data)); AVI (Z.of_nat ncol); 
+          AVI o; AVArrF (List.concat data); AVArrI buf].
+Proof. exact @KernelPareto.kernel_pareto_defs. Qed.
+Print Assumptions C20_kernel_pareto_abbreviation.
